@@ -83,6 +83,14 @@ def sel (t : Table α) (mask : List Bool) : Table α :=
   { t with obs := filterMask t.obs mask, rows := filterMask t.rows mask,
            omd := t.omd.map (fun m => filterMask m mask) }
 
+/-- `_cast_metadata`: metadata whose entries are all empty (or that has no entry) is no metadata -/
+def normMd : Option (List Md) → Option (List Md)
+  | some m => if m.all (fun e => e.isEmpty) then none else some m
+  | none => none
+
+/-- what the constructor (and the tail of an in-place `filter`) does to both axes' metadata -/
+def castMd (t : Table α) : Table α := { t with omd := normMd t.omd, smd := normMd t.smd }
+
 def maskOf {κ : Type} [DecidableEq κ] (ks : List (Option κ)) (k : κ) : List Bool :=
   ks.map (fun o => decide (o = some k))
 
@@ -108,7 +116,10 @@ def partO {κ : Type} [DecidableEq κ] (t : Table α) (ks : List (Option κ)) : 
 def partitionO [Zero α] [DecidableEq α] (t : Table α) (ls : List Label) (removeE ignoreNone : Bool) :
     List (Label × Table α) :=
   let ps := partO t (ls.map (eff ignoreNone))
-  if removeE then ps.map (fun p => (p.1, removeEmpty p.2)) else ps
+  -- every part goes through the constructor (`castMd`); `remove_empty` filters both axes in place and
+  -- each filter normalises the metadata of its axis again (normalising before and after the two
+  -- filters is the same as normalising after them)
+  if removeE then ps.map (fun p => (p.1, castMd (removeEmpty p.2))) else ps.map (fun p => (p.1, castMd p.2))
 
 /-- `Table.partition(f, axis, remove_empty, ignore_none)` as a list of (label, table) -/
 def partition [Zero α] [DecidableEq α] (t : Table α) (ax : Axis) (f : Labeler) (removeE ignoreNone : Bool) :
@@ -145,7 +156,7 @@ def collapseO (t : Table Rat) (ls : List Label) (norm : Bool) (minSize : Nat) (i
   { obs := kept.map (fun p => p.1.toId),
     rows := kept.map (fun p => reduceRow norm t.samp.length p.2),
     omd := if icm && !kept.isEmpty then some (kept.map (fun p => cidsMd p.2.obs)) else none,
-    samp := t.samp, smd := t.smd, ttype := t.ttype }
+    samp := t.samp, smd := normMd t.smd, ttype := t.ttype }
 
 def collapse (t : Table Rat) (ax : Axis) (f : Labeler) (norm : Bool) (minSize : Nat) (icm : Bool) :
     Except Err (Table Rat) := do
@@ -192,7 +203,7 @@ def otmO (t : Table Rat) (evss : List Events) (divide strict icm : Bool) (mdKey 
           rows := bins.map (fun b =>
             sumRows t.samp.length ((t.rows.zip its).map (fun ri => ri.1.map (fun v => weight divide b ri.2 * v)))),
           omd := if icm && !bins.isEmpty then some (bins.map (fun b => [(mdKey, lastPath all b)])) else none,
-          samp := t.samp, smd := t.smd, ttype := t.ttype }
+          samp := t.samp, smd := normMd t.smd, ttype := t.ttype }
 
 def otm (t : Table Rat) (ax : Axis) (evss : List Events) (divide strict icm : Bool) (mdKey : String) :
     Except Err (Table Rat) := do
@@ -229,6 +240,9 @@ def cellNZ [Zero α] [DecidableEq α] (t : Table α) (o s : Id) : Bool :=
   | some v => decide (v ≠ 0)
   | none => false
 
+/-- the metadata entry of an ID; absent metadata and an empty entry are the same observation -/
+def mdD (t : Table α) (ax : Axis) (id : Id) : Md := (t.mdOf? ax id).getD []
+
 /-- one yielded part against the table it was cut from -/
 def partClauses [Zero α] [DecidableEq α] (t : Table α) (ks : List (Option Label)) (removeE : Bool)
     (k : Label) (p : Table α) : Clauses :=
@@ -241,8 +255,8 @@ def partClauses [Zero α] [DecidableEq α] (t : Table α) (ks : List (Option Lab
         t.samp.all (fun s => p.samp.contains s == mem.any (fun id => cellNZ t id s))
       else decide (p.samp = t.samp)),
     ("part.cells", p.obs.all (fun id => p.samp.all (fun s => decide (p.cell? id s = t.cell? id s)))),
-    ("part.md", p.obs.all (fun id => decide (p.mdOf? .obs id = t.mdOf? .obs id)) &&
-                p.samp.all (fun s => decide (p.mdOf? .samp s = t.mdOf? .samp s))),
+    ("part.md", p.obs.all (fun id => decide (mdD p .obs id = mdD t .obs id)) &&
+                p.samp.all (fun s => decide (mdD p .samp s = mdD t .samp s))),
     ("part.type", decide (p.ttype = t.ttype)) ]
 
 def holdsPartitionO [Zero α] [DecidableEq α] (t : Table α) (ls : List Label) (removeE ignoreNone : Bool)
@@ -276,7 +290,8 @@ def holdsCollapseO (t : Table Rat) (ls : List Label) (norm : Bool) (minSize : Na
     ("collapse.ids_md",
       if icm then keys.all (fun k => decide (out.mdOf? .obs k.toId = some (cidsMd (members t.obs ks k))))
       else decide (out.omd = none)),
-    ("collapse.other", decide (out.samp = t.samp) && decide (out.smd = t.smd) && decide (out.ttype = t.ttype)),
+    ("collapse.other", decide (out.samp = t.samp) &&
+      t.samp.all (fun s => decide (mdD out .samp s = mdD t .samp s)) && decide (out.ttype = t.ttype)),
     ("collapse.conserve",
       if !norm && decide (minSize ≤ 1) then
         t.samp.all (fun s => decide (sumOver out.obs (fun id => cellD out id s) = sumOver t.obs (fun id => cellD t id s)))
@@ -309,7 +324,8 @@ def holdsOtmO (t : Table Rat) (evss : List Events) (divide strict icm : Bool) (m
       ("otm.md",
         if icm then r.obs.all (fun b => decide (r.mdOf? .obs b = some [(mdKey, lastPath all b)]))
         else decide (r.omd = none)),
-      ("otm.other", decide (r.samp = t.samp) && decide (r.smd = t.smd) && decide (r.ttype = t.ttype)),
+      ("otm.other", decide (r.samp = t.samp) &&
+        t.samp.all (fun s => decide (mdD r .samp s = mdD t .samp s)) && decide (r.ttype = t.ttype)),
       ("otm.divide.conserve",
         if divide then
           t.samp.all (fun s => decide (sumOver r.obs (fun b => cellD r b s) =
